@@ -398,7 +398,7 @@ type RecordedSpec struct {
 	Seed   int     `json:"seed"`
 }
 
-var modClasses = []string{"type", "vers", "len-up", "len-down", "first", "mid", "last", "dropbyte", "addbyte"}
+var modClasses = []string{"type", "vers", "len-up", "len-down", "first", "mid", "last", "dropbyte", "addbyte", "cut-header", "cut-body"}
 var segClasses = []string{"whole", "bytes", "records", "halves", "odd"}
 
 func randomSpec(rng *rand.Rand, combos []Combo, i int) RecordedSpec {
